@@ -281,6 +281,10 @@ func persistOp(e *WEnv, a []string) string {
 			return "ok" // nothing to do (not in that state any more)
 		}
 		_, err := e.wm.VerifImportStep(id)
+		if err == masswallet.ErrImportingContinuable {
+			// the follower has to process a reorganisation first; the worker queues the batch again
+			return "ok"
+		}
 		return errTok(err)
 	}
 	return ledOp(e, a)
@@ -481,13 +485,24 @@ func (r *recorder) opDone() {
 	}
 }
 
+// notifyArg: the block of a (possibly rec-wrapped) notification op
+func notifyArg(a []string) string {
+	if a[0] == "rec" && len(a) > 1 {
+		return notifyArg(a[1:])
+	}
+	if a[0] == "notify" && len(a) == 2 {
+		return a[1]
+	}
+	return ""
+}
+
 // pendingObs: observations derived from the pending (unconfirmed) bookkeeping
 func pendingObs(a []string) bool {
 	if a[0] == "rec" && len(a) > 1 {
 		return pendingObs(a[1:])
 	}
 	switch a[0] {
-	case "sbu", "pend", "hsbu", "shistp", "bhistp":
+	case "sbu", "pend", "hsbu", "shistp", "bhistp", "pins", "pcred", "pgame":
 		return true
 	}
 	return false
@@ -542,7 +557,8 @@ func isObservation(a []string) bool {
 		return isObservation(a[1:])
 	}
 	switch a[0] {
-	case "synced", "bal", "abal", "utxos", "sbu", "pend", "addrs", "shist", "bhist", "hsbu", "shistp", "bhistp", "wallets":
+	case "synced", "bal", "abal", "utxos", "sbu", "pend", "addrs", "shist", "bhist", "hsbu", "shistp", "bhistp", "wallets",
+		"pins", "pcred", "pgame", "glog", "wseq":
 		return true
 	}
 	return false
@@ -629,8 +645,23 @@ func (x *crashExec) replay(f *forkRec, level, depth, mod int) string {
 		}
 		rec.pending = nil
 	}
+	// the notification queue (NtfnsHandler.queueBlock) is volatile too: what the node had announced
+	// before the crash and the follower had not yet taken is LOST with the process; the restarted
+	// wallet learns about those blocks from Start's catch-up only
+	announced := map[string]bool{}
+	for j := 0; j <= f.op && j < len(x.hist); j++ {
+		if a := x.hist[j]; a[0] == "submit" && len(a) == 2 && x.outs[j] == "ok" {
+			announced[a[1]] = true
+		}
+	}
 	for j := f.op + 1; j < len(x.hist); j++ {
 		a := x.hist[j]
+		if a[0] == "submit" && len(a) == 2 {
+			delete(announced, a[1]) // announced again after the restart
+		}
+		if n := notifyArg(a); n != "" && announced[n] {
+			continue
+		}
 		if rec != nil {
 			rec.curOp = j
 			rec.inBoot = a[0] == "boot"
